@@ -25,7 +25,7 @@ MIN_DISTINCT = 100
 
 def plan(tier, seed):
     n = 16 if tier == "quick" else 48
-    total = 700 if tier == "quick" else 12000
+    total = 700 if tier == "quick" else 30000
     return [{"part": i, "parts": n, "seed": seed, "tier": tier, "count": total // n, "k": 6 if tier == "quick" else 30,
              "kc": 3 if tier == "quick" else 10} for i in range(n)]
 
